@@ -492,6 +492,14 @@ func summarize(req *p4.WriteRequest) string {
 	return strings.Join(parts, " ")
 }
 
+func summarizeBytes(reqBytes []byte) string {
+	var req p4.WriteRequest
+	if err := proto.Unmarshal(reqBytes, &req); err != nil {
+		return "?"
+	}
+	return summarize(&req)
+}
+
 // write handles one Write RPC on the simulator goroutine; returns the
 // serialized google.rpc.Status (nil = OK).
 func (s *SimP4) write(reqBytes []byte, inc int, failThis bool) (st []byte) {
@@ -585,7 +593,7 @@ func (s *SimP4) submitWrite(reqBytes []byte, inc int) *rpcCall {
 		s.Fired["p4-write-fail-transport"]++
 		n := s.Writes
 		finish(d1, func() {
-			s.WriteLog = append(s.WriteLog, P4WriteRec{N: n, Inc: inc, Failed: "transport", Stamp: s.w.NextStamp()})
+			s.WriteLog = append(s.WriteLog, P4WriteRec{N: n, Inc: inc, Failed: "transport", Summary: summarizeBytes(reqBytes), Stamp: s.w.NextStamp()})
 			sim.Logf("p4 write #%d inc=%d failed=transport", n, inc)
 			c.errCode, c.errMsg = codes.Unavailable, "transport failure (simulated)"
 		})
